@@ -47,7 +47,20 @@ Definition closes_base (b : base) (p : M) : Prop :=
 
 Lemma base_aclose_closes : forall b, closes_base b (base_aclose b).
 Proof.
-  induction b as [i m | s IHs r IHr]; intros e w ls.
+  induction b as [i m | s IHs r IHr | i backlog]; intros e w ls.
+  3:{ simpl.
+      assert (Hset : le w (set_leaf w i) /\ same_locks w (set_leaf w i)) by (split; [apply set_leaf_le | split; reflexivity]).
+      destruct (w_leaf w i && (negb backlog || w_flushed w i)) eqn:E0.
+      { apply andb_true_iff in E0. destruct E0 as [E0 _].
+        split; [intros j [<-|[]]; exact E0 | split; [apply le_refl | split; reflexivity]]. }
+      destruct (negb backlog || w_flushed w i).
+      - split; [intros j [<-|[]]; simpl; rewrite Nat.eqb_refl; reflexivity | split; [intros j Hj; simpl; destruct (Nat.eqb j i); auto | split; reflexivity]].
+      - pose proof (point_keeps e (set_leaf w i) ls) as H.
+        destruct (point e (set_leaf w i) ls) as [[r w1] ls1]. destruct H as [H1 [H2 H3]].
+        assert (Hi : w_leaf w1 i = true) by (apply H1; simpl; rewrite Nat.eqb_refl; reflexivity).
+        assert (Hle : le w w1) by (eapply le_trans; [apply set_leaf_le | exact H1]).
+        destruct r; simpl;
+          (split; [intros j [<-|[]]; exact Hi | split; [exact Hle | split; simpl in *; congruence]]). }
   - simpl. destruct (w_leaf w i) eqn:E.
     + split; [intros j [<-|[]]; exact E | split; [apply le_refl | split; reflexivity]].
     + pose proof (points_keeps m e (set_leaf w i) ls) as H.
@@ -313,24 +326,54 @@ Proof.
   split; intros i Hi; apply H; simpl; apply in_or_app; auto.
 Qed.
 
-(* a second close of a closed base transport: no suspension point, returns normally, nothing changes *)
-Lemma base_second_prompt : forall b e w ls, (forall i, In i (leaves b) -> w_leaf w i = true) ->
+(* a second close of a closed base transport: no suspension point, returns normally, nothing changes -- unless an
+   asyncio adapter still has unflushed data (see adapter_backlog_second_close_waits) *)
+Lemma base_second_prompt : forall b e w ls, no_backlog b = true -> (forall i, In i (leaves b) -> w_leaf w i = true) ->
   base_aclose b e w ls = (ROk, w, ls).
 Proof.
-  induction b as [i m | s IHs r IHr]; intros e w ls H; simpl.
+  induction b as [i m | s IHs r IHr | i backlog]; intros e w ls Hb H; simpl.
   - rewrite (H i (or_introl eq_refl)). reflexivity.
-  - rewrite IHs by (intros i Hi; apply H; simpl; apply in_or_app; auto).
-    apply IHr. intros i Hi; apply H; simpl; apply in_or_app; auto.
+  - simpl in Hb. apply andb_true_iff in Hb. destruct Hb as [Hs Hr].
+    rewrite IHs by (auto; intros i Hi; apply H; simpl; apply in_or_app; auto).
+    apply IHr; auto. intros i Hi; apply H; simpl; apply in_or_app; auto.
+  - simpl in Hb. rewrite (H i (or_introl eq_refl)). rewrite Hb. reflexivity.
 Qed.
 
-Lemma tr_second_prompt t e w ls e2 : fresh t w ->
+Lemma tr_second_prompt t e w ls e2 : fresh t w -> no_backlog (tr_base t) = true ->
   let '(r, w1, ls1) := tr_aclose t e w ls in tr_aclose t e2 w1 ls1 = (ROk, w1, ls1).
 Proof.
-  destruct t as [b | c b]; simpl; intro Hf.
+  destruct t as [b | c b]; simpl; intros Hf Hb.
   - pose proof (base_aclose_closes b e w ls) as H. destruct (base_aclose b e w ls) as [[r w1] ls1].
-    apply base_second_prompt. apply H.
+    apply base_second_prompt; [exact Hb | apply H].
   - pose proof (tls_aclose_closes c b e w ls Hf) as H. destruct (tls_aclose c b e w ls) as [[r w1] ls1].
     destruct H as [_ [_ [_ [H1 H2]]]]. unfold tls_aclose. rewrite H1, H2. reflexivity.
+Qed.
+
+(* the asyncio adapter with unflushed data and a peer that does not read: a close that is cancelled (or forced)
+   at the close waiter marks the transport closing but does not release the file descriptor, and a second close waits
+   again (it consumes a label) *)
+Lemma adapter_backlog_witness :
+  let '(r, w1, ls1) := base_aclose (BAdapter 0 true) env0 (world0 false) [XCancel; XCancel] in
+  r = RCancel /\ w_leaf w1 0 = true /\ w_flushed w1 0 = false /\
+  let '(r2, w2, ls2) := base_aclose (BAdapter 0 true) env0 w1 ls1 in r2 = RCancel /\ w_used w2 = 2.
+Proof. vm_compute. repeat split. Qed.
+
+Lemma adapter_forced_witness :
+  let '(r, w1, ls1) := forceful (base_aclose (BAdapter 0 true)) env0 (world0 false) [] in
+  r = ROk /\ w_leaf w1 0 = true /\ w_flushed w1 0 = false.
+Proof. vm_compute. repeat split. Qed.
+
+(* the descriptor is released as soon as the waiter completes: the peer drained the data or the connection broke *)
+Lemma adapter_flush_releases i e w ls :
+  let '(r, w1, ls1) := base_aclose (BAdapter i true) e w ls in r = ROk -> w_flushed w1 i = true \/ (w_leaf w i = true /\ w1 = w).
+Proof.
+  simpl. destruct (w_leaf w i) eqn:El; destruct (w_flushed w i) eqn:Ef; simpl.
+  - intros _. right. auto.
+  - destruct (point e (set_leaf w i) ls) as [[r w1] ls1].
+    destruct r; try discriminate; intros _; left; simpl; rewrite Nat.eqb_refl; reflexivity.
+  - intros _. left. rewrite Nat.eqb_refl. reflexivity.
+  - destruct (point e (set_leaf w i) ls) as [[r w1] ls1].
+    destruct r; try discriminate; intros _; left; simpl; rewrite Nat.eqb_refl; reflexivity.
 Qed.
 
 (* a failed, cancelled or timed-out TLS handshake closes the wrapped transport *)
